@@ -7,10 +7,14 @@ PID = "C07"
 MAXV = 20
 
 
-def _cfg(calls, zero, devf9=False, devf12=False, emit=True, invs=True, sim=False):
+ALLOPS = '{"oracle", "value", "prox", "gradient", "call"}'
+CORE = '{"oracle", "value", "prox"}'
+
+
+def _cfg(calls, zero, devf9=False, devf12=False, emit=True, invs=True, sim=False, ops=CORE, qset="{1, 3, 4, 5, 6}"):
     s = ("CONSTANTS\n MaxP = %d\n MaxE = %d\n MaxCalls = %d\n DevF9 = %s\n DevF12 = %s\n WithZeroFun = %s\n Sim = %s\n"
-         "INIT Init\nNEXT Next\nCHECK_DEADLOCK FALSE\n" % (
-             MAXV, MAXV, calls, str(devf9).upper(), str(devf12).upper(), str(zero).upper(), str(sim).upper()))
+         " OpSet = %s\n QSet = %s\nINIT Init\nNEXT Next\nCHECK_DEADLOCK FALSE\n" % (
+             MAXV, MAXV, calls, str(devf9).upper(), str(devf12).upper(), str(zero).upper(), str(sim).upper(), ops, qset))
     if invs:
         s += "INVARIANT InvI1\nINVARIANT InvI2\nINVARIANT InvI3\nINVARIANT InvI4\n"
     if emit:
@@ -18,7 +22,7 @@ def _cfg(calls, zero, devf9=False, devf12=False, emit=True, invs=True, sim=False
     return s
 
 
-TRACE_CFG = ("CONSTANTS\n MaxP = %d\n MaxE = %d\n MaxCalls = 0\n DevF9 = FALSE\n DevF12 = FALSE\n WithZeroFun = FALSE\n Sim = FALSE\n"
+TRACE_CFG = ("CONSTANTS\n MaxP = %d\n MaxE = %d\n MaxCalls = 0\n DevF9 = FALSE\n DevF12 = FALSE\n WithZeroFun = FALSE\n Sim = FALSE\n OpSet = {}\n QSet = {}\n"
              "INIT TInit\nNEXT Step\nINVARIANT Report\nCHECK_DEADLOCK FALSE\n" % (MAXV, MAXV))
 
 
@@ -48,8 +52,14 @@ def programs(res, tier, wd):
         if not r["violated"]:
             raise Machinery("Oracle.tla with %s does not violate any invariant: the invariants are vacuous" % name)
     # (4) sampled longer behaviours
-    n = 6000 if tier == "quick" else 60000
-    r = tlc("Oracle", _cfg(4, False, invs=True, sim=True), wd, workers=1, simulate="num=%d" % n,
+    # every entry point on every function at every query point, one call (exhaustive), then sampled sequences of 4
+    r = tlc("Oracle", _cfg(1, False, ops=ALLOPS, qset="{1, 2, 3, 4, 5, 6}"), wd)
+    res.add_tlc("Oracle(depth 1, all entry points)", r)
+    for rec in split_prints(r["out"]):
+        if isinstance(rec, str):
+            progs.append(dict(h=json.loads(rec)["h"], zero=False))
+    n = 8000 if tier == "quick" else 60000
+    r = tlc("Oracle", _cfg(4, False, invs=True, sim=True, ops=ALLOPS, qset="{1, 2, 3, 4, 5, 6}"), wd, workers=1, simulate="num=%d" % n,
             extra=["-depth", "5", "-seed", str(seed() + 7)])
     if r["violated"]:
         raise Machinery("Oracle.tla (simulation) violates %s" % r["violated"])
@@ -84,7 +94,7 @@ def validate(res, traces, wd):
 
 FN = {1: "f1(nondiff)", 2: "f2(diff)", 3: "f1+f2/2", 4: "f1-f1+f2", 5: "2*f2", 6: "f6(nondiff)", 7: "f1-f6",
       8: "f6/2+2*f2+0*f1", 9: "f1-f1"}
-QN = {0: "", 1: "x1", 2: "x2", 3: "x1-x2", 4: "0*x2", 5: "x1-x1"}
+QN = {0: "", 1: "x1", 2: "x2", 3: "x1-x2", 4: "0*x2", 5: "x1-x1", 6: "(1+2^-20)*x1"}
 
 
 def cstr(c):
